@@ -20,10 +20,11 @@ func init() {
 		Assumptions:    []string{"a recycling validator is used once (documented contract)", trustDeps},
 	}
 	Properties["C05"] = PropSpec{
-		Rules:       []Rule{Globals, Cow, PoolAPI, ResLinear, Slots, Stateless},
-		Explanation: "Decides the structural conditions race-freedom and independence rest on, for every function and path: GLOBALS (every package-level variable classified: sync object / never written after init / guarded) + LOCKSET (every run-time access of a guarded global holds the mutex common to its writers; must-held locksets with call-site propagated entry sets); COW (published regexp-cache snapshots are never written, publication under the mutex after an in-section reload, into a fresh map); exclusive ownership of pooled objects (RES-LINEAR: nothing is read after its release, nothing released twice; SLOT-*: no child reachable from two owners; POOL-API, EMPTY-IMMUTABLE: the shared empty result is never written); STATELESS (a validator built without recycling is only read while validating, so it can be shared).",
-		NotDecided:  "The Go memory model itself; races inside dependencies (spec expander, analysis); caller-supplied registries; equality of concurrent and solitary outcomes beyond independence of shared state.",
-		Assumptions: []string{"lock held at both accesses implies no data race", "sync.Pool hands an object to one borrower at a time", trustDeps},
+		Rules:          []Rule{Globals, Cow, PoolAPI, ResLinear, Slots, Stateless},
+		DebugConfigToo: true,
+		Explanation:    "Decides the structural conditions race-freedom and independence rest on, for every function and path: GLOBALS (every package-level variable classified: sync object / never written after init / guarded) + LOCKSET (every run-time access of a guarded global holds the mutex common to its writers; must-held locksets with call-site propagated entry sets); COW (published regexp-cache snapshots are never written, publication under the mutex after an in-section reload, into a fresh map); exclusive ownership of pooled objects (RES-LINEAR: nothing is read after its release, nothing released twice; SLOT-*: no child reachable from two owners; POOL-API, EMPTY-IMMUTABLE: the shared empty result is never written); STATELESS (a validator built without recycling is only read while validating, so it can be shared).",
+		NotDecided:     "The Go memory model itself; races inside dependencies (spec expander, analysis); caller-supplied registries; equality of concurrent and solitary outcomes beyond independence of shared state.",
+		Assumptions:    []string{"lock held at both accesses implies no data race", "sync.Pool hands an object to one borrower at a time", trustDeps},
 	}
 	Properties["C08"] = PropSpec{
 		Rules:       []Rule{Stateless, Slots, MapOrder("(*SchemaValidator).Validate", "(*ParamValidator).Validate", "(*HeaderValidator).Validate")},
@@ -32,10 +33,11 @@ func init() {
 		Assumptions: []string{"validator state = fields of the validator types; caller-supplied registries are outside", trustDeps},
 	}
 	Properties["C11"] = PropSpec{
-		Rules:       []Rule{Slots, PoolAPI, PoolCtor},
-		Explanation: "Decides, for every unwind point at once, that a panic cannot leave an object twice in a pool: SLOT-PRECLEAR (on every recycle path the slot is emptied between loading a child and running it, so the parent's deferred redeemChildren never sees a child that released itself); SLOT-SELFREDEEM (each Validate registers exactly one deferred self-release, children first, under the recycle guard, with only non-panicking calls before the registration); SLOT-POSTCLEAR for released children; DEFER-INIT (a deferred release is registered only after the released variable is assigned, so a panic cannot put a nil in a pool); scratch schemas are released by a deferred closure of the borrowing function. Results borrowed before a panic are merely leaked.",
-		NotDecided:  "State kept inside the caller's format checker or inside dependencies; outcome equality of later validations (follows from pool integrity, which is what is decided).",
-		Assumptions: []string{"panics originate in callees of Validate (format checkers, documented invalid-schema panic)", trustDeps},
+		Rules:          []Rule{Slots, PoolAPI, PoolCtor},
+		DebugConfigToo: true,
+		Explanation:    "Decides, for every unwind point at once, that a panic cannot leave an object twice in a pool: SLOT-PRECLEAR (on every recycle path the slot is emptied between loading a child and running it, so the parent's deferred redeemChildren never sees a child that released itself); SLOT-SELFREDEEM (each Validate registers exactly one deferred self-release, children first, under the recycle guard, with only non-panicking calls before the registration); SLOT-POSTCLEAR for released children; DEFER-INIT (a deferred release is registered only after the released variable is assigned, so a panic cannot put a nil in a pool); scratch schemas are released by a deferred closure of the borrowing function. Results borrowed before a panic are merely leaked.",
+		NotDecided:     "State kept inside the caller's format checker or inside dependencies; outcome equality of later validations (follows from pool integrity, which is what is decided).",
+		Assumptions:    []string{"panics originate in callees of Validate (format checkers, documented invalid-schema panic)", trustDeps},
 	}
 	Properties["C15"] = PropSpec{
 		Rules:       []Rule{Cow},
